@@ -105,7 +105,7 @@ var adminTypes = []adminType{
 	{"LinkTokenPair", "tc", func(s *State, f string, v int) sdk.Msg {
 		for d := uint32(40); d < 60; d++ {
 			if _, ok := s.Pairs[pairKey{d, string(Token(2))}]; !ok {
-				return &ct.MsgLinkTokenPair{From: f, RemoteDomain: d, RemoteToken: Token(2), LocalToken: []string{"uusdc", "UUSDC"}[v%2]}
+				return &ct.MsgLinkTokenPair{From: f, RemoteDomain: d, RemoteToken: Token(2), LocalToken: []string{"uusdc", "UUSDC", "factory/" + f + "/utoken", "uusdc"}[v%4]}
 			}
 		}
 		return &ct.MsgLinkTokenPair{From: f, RemoteDomain: 61, RemoteToken: Token(2), LocalToken: "uusdc"}
@@ -128,7 +128,7 @@ var adminTypes = []adminType{
 		return &ct.MsgUnlinkTokenPair{From: f, RemoteDomain: k.Domain, RemoteToken: []byte(k.Token), LocalToken: s.Pairs[k]}
 	}},
 	{"SetMaxBurnAmountPerMessage", "tc", func(s *State, f string, v int) sdk.Msg {
-		return &ct.MsgSetMaxBurnAmountPerMessage{From: f, LocalToken: []string{"uusdc", "UUSDC", "ueure"}[v%3], Amount: mkInt(big.NewInt(int64(1000 + v)))}
+		return &ct.MsgSetMaxBurnAmountPerMessage{From: f, LocalToken: []string{"uusdc", "UUSDC", "ueure", "factory/" + f + "/utoken", "ibc/" + f, f}[v%6], Amount: mkInt(big.NewInt(int64(1000 + v)))}
 	}},
 }
 
@@ -774,12 +774,16 @@ func runC12(rc *RunCtx) {
 	defer ProbeHistory(rc, rc.Pick(200, 800), false)
 	// the pauser's four transactions do not depend on the attester configuration: one key under two spellings with
 	// threshold 2, a single attester, a threshold above the set, no attesters at all
-	for v := 0; v < 4; v++ {
+	for v := 0; v < 7; v++ {
 		if v%rc.NShards != rc.Shard {
 			continue
 		}
 		e, err := StdEngine(rc, false, false, func(gs *ct.GenesisState, cfg *chain.Config) {
 			switch v {
+			case 4: // the pauser is recorded in the all-upper-case spelling of its address (genesis)
+				gs.Pauser = strings.ToUpper(gs.Pauser)
+			case 5: // the pauser also holds the owner and the attester-manager role
+				gs.Pauser, gs.AttesterManager = gs.Owner, gs.Owner
 			case 0:
 				gs.AttesterList = []ct.Attester{{Attester: AttesterPool[0].Spell(0)}, {Attester: AttesterPool[0].Spell(1)}}
 				gs.SignatureThreshold = &ct.SignatureThreshold{Amount: 2}
@@ -797,6 +801,10 @@ func runC12(rc *RunCtx) {
 		if err != nil {
 			rc.Cov.Inconclusive("c12 attester-config chain: " + err.Error())
 			continue
+		}
+		if v == 6 { // ... or appointed in that spelling by the owner while a flag is set
+			e.Exec(Tx{Msgs: msgs1(&ct.MsgPauseBurningAndMinting{From: e.M.Pauser}), Note: "C12 pause before the pauser is replaced"})
+			e.Exec(Tx{Msgs: msgs1(&ct.MsgUpdatePauser{From: e.M.Owner, NewPauser: strings.ToUpper(Acct(OtherIx))}), Note: "C12 pauser appointed in the upper-case spelling"})
 		}
 		for rep := 0; rep < 2; rep++ {
 			for _, m := range []sdk.Msg{&ct.MsgPauseSendingAndReceivingMessages{From: e.M.Pauser}, &ct.MsgUnpauseSendingAndReceivingMessages{From: e.M.Pauser},
@@ -1125,6 +1133,14 @@ func runC13(rc *RunCtx) {
 				r3 := en.Exec(Tx{Msgs: msgs1(&ct.MsgEnableAttester{From: am, Attester: long + "02"}), Note: "C13 enable the second long identifier"})
 				r4 := en.Exec(Tx{Msgs: msgs1(&ct.MsgDisableAttester{From: am, Attester: long + "01"}), Note: "C13 disable the first long identifier"})
 				rc.Cov.Cell("C13_transitions", fmt.Sprintf("long-identifier-siblings/enable=%v/disable-sibling=%v/enable-sibling=%v/disable=%v", r1.OK, r2.OK, r3.OK, r4.OK))
+			}
+			// a string that joins two enabled identifiers is one (unknown) identifier, not a list
+			if len(keys) >= 2 {
+				a, b := AttesterPool[keys[0]].Spell(keys[0]%4), AttesterPool[keys[1]].Spell(keys[1]%4)
+				for _, sep := range []string{",", ", ", ";", " ", "\n", "|", "/"} {
+					step(&ct.MsgDisableAttester{From: am, Attester: a + sep + b}, "disable-joined-identifiers")
+				}
+				step(&ct.MsgDisableAttester{From: am, Attester: a + "," + a}, "disable-joined-identifiers")
 			}
 			for nt := 0; nt <= len(keys)+2; nt++ {
 				step(&ct.MsgUpdateSignatureThreshold{From: am, Amount: uint32(nt)}, "set-threshold")
